@@ -648,6 +648,11 @@ func insertSeparatorsAt(integer string, sep rune, positions []int, fromRight boo
 		n := positions[i]
 		if fromRight {
 			n = utf8.RuneCountInString(s) - n
+			if n <= 0 {
+				// The number has no digit to the
+				// left of this position.
+				continue
+			}
 		}
 
 		pos := 0
